@@ -71,12 +71,13 @@ type agg struct {
 	harness   []string
 	hangs     int
 	exhaustOK int
+	canon     map[string]map[string]int // key -> hash -> first run index
 }
 
 func newAgg() *agg {
 	return &agg{keys: map[string]struct{}{}, nontriv: map[string]struct{}{}, states: map[string]struct{}{},
 		ilv: map[uint64]struct{}{}, probes: map[string]int{}, faults: map[string]int{}, extra: map[string]int{},
-		found: map[string]*found{}}
+		found: map[string]*found{}, canon: map[string]map[string]int{}}
 }
 
 func (a *agg) add(idx int, resp *Response) {
@@ -124,6 +125,16 @@ func (a *agg) add(idx int, resp *Response) {
 	}
 	if r.Harness != "" {
 		a.harness = append(a.harness, fmt.Sprintf("run %d: %s", idx, r.Harness))
+	}
+	for k, h := range r.Canon {
+		m := a.canon[k]
+		if m == nil {
+			m = map[string]int{}
+			a.canon[k] = m
+		}
+		if old, ok := m[h]; !ok || idx < old {
+			m[h] = idx
+		}
 	}
 	for _, v := range r.Violations {
 		f := a.found[v.Sig]
@@ -438,6 +449,14 @@ func (d *Driver) Check() int {
 		return 2
 	}
 
+	// results that must agree across runs (determinism across histories)
+	crossChecked, crossErr := d.crossRun(e, a)
+	if crossErr != "" {
+		fmt.Fprintln(os.Stderr, "verif: harness trouble:", crossErr)
+		return 2
+	}
+	a.extra["cross_run_keys_compared"] = crossChecked
+
 	// violations
 	ff := d.loadFindings()
 	sigs := make([]string, 0, len(a.found))
@@ -542,6 +561,64 @@ func (d *Driver) Check() int {
 	d.writeEvidence(e, a, done, n, stopped, wall, exploreWall.Seconds(), nviol, detChecked, sstats, reported)
 	fmt.Fprintf(d.Out, "verif: %s %s seed=%d: %d runs, %d distinct non-trivial, %d violations, %.1fs\n", d.Prop, d.Tier, d.Seed, done, a.ntCases, nviol, wall)
 	return exit
+}
+
+// crossRun compares results with the same key across all runs of the batch. For a
+// key with more than one result, the result of a history of length one in a fresh
+// process is the reference; every run that deviates from it is re-executed with
+// the reference attached, which makes the deviation a violation of that run.
+func (d *Driver) crossRun(e Engine, a *agg) (int, string) {
+	ce, ok := e.(CanonEngine)
+	if !ok {
+		return 0, ""
+	}
+	keys := make([]string, 0, len(a.canon))
+	for k := range a.canon {
+		keys = append(keys, k)
+	}
+	sort.Strings(keys)
+	handled := 0
+	for _, k := range keys {
+		hs := a.canon[k]
+		if len(hs) < 2 {
+			continue
+		}
+		if handled >= 8 {
+			break
+		}
+		handled++
+		solo := ce.SoloScenario(d.Prop, d.Seed, k)
+		if solo == nil {
+			return len(keys), "no solo scenario for key " + k
+		}
+		sr, herr := d.RunScenario(solo, 0)
+		if herr != "" || sr == nil {
+			return len(keys), "solo scenario did not run: " + herr
+		}
+		ref, ok := sr.Canon[k]
+		if !ok {
+			// the solo call itself aborted: totality violations are reported by the runs themselves
+			continue
+		}
+		for h, idx := range hs {
+			if h == ref {
+				continue
+			}
+			resps, _, _ := d.runRequests([]*Request{{Property: d.Prop, VerifSeed: d.Seed, Tier: d.Tier, Idx: idx, WantScenario: true}}, 0)
+			if len(resps) != 1 || resps[0].Scenario == nil {
+				continue
+			}
+			sc := resps[0].Scenario
+			sc.ExpectCanon = map[string]string{k: ref}
+			r2, herr := d.RunScenario(sc, 0)
+			if herr != "" || r2 == nil {
+				continue
+			}
+			a.add(idx, &Response{Idx: idx, Result: &Result{Key: r2.Key, Violations: r2.Violations, Sched: r2.Sched}, Scenario: sc})
+			a.evals-- // not a new evaluation
+		}
+	}
+	return len(keys), ""
 }
 
 func (d *Driver) determinismSample(e Engine, n, done int) (int, string) {
